@@ -21,9 +21,15 @@ func runC14(w *World) {
 	if localAS == 0 {
 		localAS = uint32(w.Range(1, 1<<31, "lasr"))
 	}
-	hold := Pick(w, "hold", 90, 0, 3, 65535, -1)
-	if hold < 0 {
+	hold := Pick(w, "hold", 90, 0, 3, 65535, -1, -2)
+	if hold == -1 {
 		hold = w.Range(3, 65535, "holdr")
+	}
+	holdOpt := hold
+	if hold == -2 {
+		// no WithHoldTime option at all: the documented default applies
+		hold, holdOpt = int(corebgp.DefaultHoldTimeSeconds), -1
+		w.Probe("default-hold-time")
 	}
 	rid := U32ToIP(uint32(w.Range(1<<24, 0xDFFFFFFF, "rid")))
 	var capLists [][]corebgp.Capability
@@ -68,7 +74,7 @@ func runC14(w *World) {
 		return l
 	}
 	s := NewStd1(w, Std1Opts{Dir: dir, Passive: dir == DirIn && w.Draw(2, "passive") == 1, LocalAS: localAS, LocalID: rid,
-		LocalHold: hold, RemoteHold: 90, IdleHold: time.Second,
+		LocalHold: holdOpt, RemoteHold: 90, IdleHold: time.Second,
 		Configure: func(p *PeerH) {
 			var static []corebgp.Capability
 			staticMode := w.Chance(1, 4, "static-caps")
